@@ -1,4 +1,5 @@
 mod gen_dispatch;
+mod oracle;
 mod pools;
 mod wire;
 
@@ -43,7 +44,7 @@ fn lines_close(a: &str, b: &str, worst: &mut f64) -> bool {
     ta.len() == tb.len() && ta.iter().zip(tb.iter()).all(|(x, y)| tok_close(x, y, worst))
 }
 
-fn json_str(s: &str) -> String {
+pub fn json_str(s: &str) -> String {
     let mut o = String::from("\"");
     for c in s.chars() {
         match c { '"' => o.push_str("\\\""), '\\' => o.push_str("\\\\"), '\n' => o.push_str("\\n"), c if (c as u32) < 32 => o.push_str(&format!("\\u{:04x}", c as u32)), c => o.push(c) }
@@ -112,6 +113,18 @@ fn main() {
     let args: Vec<String> = std::env::args().collect();
     let code = match args.get(1).map(|s| s.as_str()) {
         Some("corr") => corr(&args[2..]),
+        Some("sweep") => {
+            let a = &args[2..];
+            let id = a[0].as_str();
+            let tier = arg(a, "--tier").unwrap_or("quick");
+            let seed: u64 = arg(a, "--seed").unwrap_or("1").parse().unwrap();
+            let known: Vec<String> = arg(a, "--known").map(|s| s.split(',').filter(|x| !x.is_empty()).map(|x| x.to_string()).collect()).unwrap_or_default();
+            match oracle::run(id, tier, seed, &known) {
+                Some(rep) => { let js = rep.to_json(id, tier, seed); if let Some(p) = arg(a, "--json") { std::fs::write(p, &js).unwrap(); } else { println!("{}", js); } 0 }
+                None => { eprintln!("no oracle for {}", id); 2 }
+            }
+        }
+        Some("gen1") => oracle::textprops::gen1(&args[2..]),
         Some("one") => { println!("{}", run_real(&args[2], &args[3..].join(" "))); 0 }
         _ => { eprintln!("usage: harness corr|one ..."); 2 }
     };
